@@ -158,6 +158,14 @@ def scenarios(quick):
     # that could have read the old manifest is over, so Python output for the new model can only come from stale configuration
     FROZEN["python-section-removed"] = ("py", 0)
     S["manifest-option-edited"] = (plain, [({"main/_package.yml": MAN % "" + "  generateNDJson: false\n"}, 1), ({"main/model.yml": model(2, "f")}, 1)])
+    # two previous versions (both carry the package's own namespace); the C++ output embeds their schemas and conversions
+    VM = "Rv: !record\n  fields:\n    x: %s\nP: !protocol\n  sequence:\n    a: Rv\n"
+    withver = {"main/_package.yml": MAN % "versions:\n  v1: ../v1\n  v2: ../v2\n" + "cpp:\n  sourcesOutputDir: ../out/cpp\n", "main/model.yml": VM % "long",
+               "v1/_package.yml": "namespace: Wq\n", "v1/model.yml": VM % "int", "v2/_package.yml": "namespace: Wq\n", "v2/model.yml": VM % "int"}
+    S["previous-versions-edited"] = (withver, [({"v1/model.yml": VM % "uint8"}, 1), ({"v2/model.yml": VM % "int16"}, 1)])
+    # model files are collected from the package directory recursively
+    EX = "Ex: !record\n  fields:\n    %s: int\n"
+    S["model-file-in-subdirectory-edited"] = (dict(plain, **{"main/sub/extra.yml": EX % "x"}), [({"main/sub/extra.yml": EX % "y"}, 1)])
     if not quick:
         S["three-edits"] = (plain, [({"main/model.yml": model(4, "b")}, 1), ({"main/model.yml": model(1, "c")}, 1), ({"main/model.yml": model(3, "d")}, 1)])
         S["import-three-edits"] = (withimp, [({"imp/model.yml": IMP_MODEL % "b"}, 1), ({"main/model.yml": MAIN_WITH_IMP % "b"}, 1), ({"imp/model.yml": IMP_MODEL % "c"}, 1)])
@@ -302,6 +310,16 @@ def explore(chk, sc, bound, max_exec, pool):
                     # an edit in a directory the watcher did not watch (yet) raised no event: only the current directory is
                     # promised by the documentation; imports are watched after the first successful regeneration
                     kind = "edit-outside-watched-directories"
+                    # ... which explains the miss only while no regeneration has succeeded yet: once one has (all its points,
+                    # including `validated`, precede the edit; it runs to its end before the next decision), every referenced
+                    # package's directory is on the watch list
+                    env_pos = [i for i, t in enumerate(trace) if t == "env"]
+                    for e in res["unwatched_edits"]:
+                        if e < len(env_pos):
+                            before = trace[:env_pos[e]]
+                            done = {t.split("@")[0] for t in before if t.endswith("@validated")} - {t.split("@")[0] for t in trace[env_pos[e]:] if "@" in t}
+                            if done:
+                                kind = "edit-in-referenced-directory-not-watched-after-successful-regeneration"
                 chk.fail("stale-output/%s/%s" % (kind, sc.name), "scenario %s: after edits stopped and every regeneration finished, %d output file(s) differ from a one-shot generate of the final contents (e.g. %s); schedule: %s" % (
                     sc.name, len(missing), missing[0], " > ".join(trace)), {"scenario": sc.name, "choices": [d["chosen"] for d in dec], "trace": trace, "differing": missing[:10],
                                                                               "initial": sc.initial, "edits": sc.edits})
